@@ -94,6 +94,17 @@ func init() {
 					}
 					res <- est{id: id, cc: cc, tag: tag}
 				}
+				// traffic=1: calls on the main connection and on every earlier brokered connection
+				// run concurrently with this establishment
+				var traffic chan struct{}
+				if p["traffic"] == "1" {
+					traffic = make(chan struct{})
+					when := fmt.Sprintf("during establishment %d (%s)", i+1, e)
+					x.Go("host", func() {
+						defer close(traffic)
+						pingAll(when)
+					})
+				}
 				if order == 'A' {
 					x.Go(adom, accept)
 					x.Pause(gap)
@@ -104,6 +115,9 @@ func init() {
 					x.Go(adom, accept)
 				}
 				r := <-res
+				if traffic != nil {
+					<-traffic
+				}
 				vs.Point("established")
 				if r.cc != nil {
 					made = append(made, r)
@@ -179,6 +193,17 @@ func init() {
 				for _, a := range one {
 					for _, b := range one {
 						out = append(out, explore.Params{"seq": a + "," + b})
+					}
+				}
+			case "traffic-single":
+				for _, a := range one {
+					out = append(out, explore.Params{"seq": a, "traffic": "1"})
+				}
+			case "traffic-pairs":
+				short := []string{"pA0", "pD0", "hA0", "hD0", "pA1000", "hD1000"}
+				for _, a := range short {
+					for _, b := range short {
+						out = append(out, explore.Params{"seq": a + "," + b, "traffic": "1"})
 					}
 				}
 			case "triples":
